@@ -489,8 +489,9 @@ func verifAssume(cond bool) {}
 
 //@ func UnmarshalDocument
 //@   props C01 C02
-//@   requires @dnil d != nil
-//@   ensures err == nil && result0 != nil ==> tagof(result0) == factoryTag(resolveFactory(t)) && result0.text == bytes(*d) && fresh(result0)
+//@   ensures d == nil ==> err != nil
+//@   ensures d != nil && resolveFactory(t) != nil && docDecodes(bytes(*d), factoryTag(resolveFactory(t))) ==> err == nil
+//@   ensures err == nil && result0 != nil ==> tagof(result0) == factoryTag(resolveFactory(t)) && result0.text == bytes(*d) && fresh(result0) && jsonOK(result0) && docDecodes(result0.text, tagof(result0))
 //@   ensures err == nil && result0 == nil ==> bytes(*d) == "null"
 //@   ensures err == nil ==> resolveFactory(t) != nil
 //@   modifies nothing
@@ -501,17 +502,21 @@ func verifAssume(cond bool) {}
 //@   ensures msg.Content == nil ==> err != nil
 //@   ensures msg.Content != nil && jsonOK(msg.Content) ==> err == nil
 //@   ensures err == nil ==> result0 != nil && fresh(result0) && rawBase(result0, &msg.Envelope)
-//@   ensures err == nil ==> result0.Type == &msg.Type && result0.Content != nil && fresh(result0.Content) && bytes(*result0.Content) == msg.Content.text
+//@   ensures err == nil ==> result0.Type == &msg.Type && result0.Content != nil && fresh(result0.Content) && bytes(*result0.Content) == msg.Content.text && jsonValid(bytes(*result0.Content))
 //@   ensures err == nil ==> result0.Reason == nil && noNotFields(result0) && noCmdFields(result0) && noSesFields(result0)
 //@   modifies nothing
+
+//@ spec fn okDocRaw(c *json.RawMessage, t *MediaType) bool = t != nil && c != nil && resolveFactory(*t) != nil && docDecodes(bytes(*c), factoryTag(resolveFactory(*t)))
+//@ spec fn popDoc(d Document, c *json.RawMessage, t *MediaType) bool = (d != nil ==> tagof(d) == factoryTag(resolveFactory(*t)) && d.text == bytes(*c) && jsonOK(d) && docDecodes(d.text, tagof(d)) && resolveFactory(*t) != nil) && (d == nil ==> bytes(*c) == "null")
+//@ spec fn popMessage(m *Message, old_m Message, r *rawEnvelope) bool = popBase(&m.Envelope, old_m.Envelope, r) && r.Type != nil && r.Content != nil && m.Type == *r.Type && popDoc(m.Content, r.Content, r.Type)
+//@ spec fn okMessage(r *rawEnvelope) bool = okDocRaw(r.Content, r.Type)
 
 //@ func (*Message).populate
 //@   props C01 C02
 //@   requires msg != nil && raw != nil && rawApart(raw, msg)
 //@   ensures raw.Type == nil || raw.Content == nil ==> result != nil
-//@   ensures result == nil ==> popBase(&msg.Envelope, old(msg.Envelope), raw) && msg.Type == *raw.Type
-//@   ensures result == nil && msg.Content != nil ==> tagof(msg.Content) == factoryTag(resolveFactory(*raw.Type)) && msg.Content.text == bytes(*raw.Content)
-//@   ensures result == nil && msg.Content == nil ==> bytes(*raw.Content) == "null"
+//@   ensures okMessage(raw) ==> result == nil
+//@   ensures result == nil ==> popMessage(msg, old(*msg), raw)
 //@   modifies *msg
 
 //@ func (*Message).UnmarshalJSON
@@ -532,11 +537,14 @@ func verifAssume(cond bool) {}
 //@   ensures result0.Type == nil && noMsgFields(result0) && noCmdFields(result0) && noSesFields(result0)
 //@   modifies nothing
 
+//@ spec fn popNotification(n *Notification, old_n Notification, r *rawEnvelope) bool = popBase(&n.Envelope, old_n.Envelope, r) && r.Event != nil && n.Event == *r.Event && n.Reason == r.Reason
+
 //@ func (*Notification).populate
 //@   props C01 C02
 //@   requires not != nil && raw != nil && rawApart(raw, not)
 //@   ensures raw.Event == nil ==> result != nil
-//@   ensures result == nil ==> popBase(&not.Envelope, old(not.Envelope), raw) && not.Event == *raw.Event && not.Reason == raw.Reason
+//@   ensures raw.Event != nil ==> result == nil
+//@   ensures result == nil ==> popNotification(not, old(*not), raw)
 //@   modifies *not
 
 //@ func (*Notification).UnmarshalJSON
@@ -544,7 +552,7 @@ func verifAssume(cond bool) {}
 //@   requires not != nil
 //@   modifies *not
 
-//@ spec fn rawCommand(r *rawEnvelope, c *Command) bool = rawBase(r, &c.Envelope) && ite(c.Method != "", r.Method == &c.Method, r.Method == nil) && ite(c.Resource != nil, r.Resource != nil && bytes(*r.Resource) == c.Resource.text && r.Type == c.Type, r.Resource == nil && r.Type == nil)
+//@ spec fn rawCommand(r *rawEnvelope, c *Command) bool = rawBase(r, &c.Envelope) && ite(c.Method != "", r.Method == &c.Method, r.Method == nil) && ite(c.Resource != nil, r.Resource != nil && bytes(*r.Resource) == c.Resource.text && jsonValid(bytes(*r.Resource)) && r.Type == c.Type, r.Resource == nil && r.Type == nil)
 
 //@ func (*Command).toRawEnvelope
 //@   props C01 C02
@@ -555,15 +563,20 @@ func verifAssume(cond bool) {}
 //@   ensures err == nil && result0.Resource != nil ==> fresh(result0.Resource)
 //@   modifies nothing
 
-//@ spec fn popCommand(c *Command, old_c Command, r *rawEnvelope) bool = popBase(&c.Envelope, old_c.Envelope, r) && c.Method == *r.Method && ite(r.Resource != nil, c.Type == r.Type && (c.Resource != nil ==> tagof(c.Resource) == factoryTag(resolveFactory(*r.Type)) && c.Resource.text == bytes(*r.Resource)) && (c.Resource == nil ==> bytes(*r.Resource) == "null"), c.Type == old_c.Type && c.Resource == old_c.Resource)
+//@ spec fn popCommand(c *Command, old_c Command, r *rawEnvelope) bool = popBase(&c.Envelope, old_c.Envelope, r) && r.Method != nil && c.Method == *r.Method && ite(r.Resource != nil, r.Type != nil && c.Type == r.Type && popDoc(c.Resource, r.Resource, r.Type), c.Type == old_c.Type && c.Resource == old_c.Resource)
+//@ spec fn okCommand(r *rawEnvelope) bool = r.Method != nil && (r.Resource != nil ==> okDocRaw(r.Resource, r.Type))
 
 //@ func (*Command).populate
 //@   props C01 C02
 //@   requires cmd != nil && raw != nil && rawApart(raw, cmd)
 //@   ensures raw.Method == nil ==> result != nil
+//@   ensures okCommand(raw) ==> result == nil
 //@   ensures raw.Resource != nil && raw.Type == nil ==> result != nil
 //@   ensures result == nil ==> popCommand(cmd, old(*cmd), raw)
 //@   modifies *cmd
+
+//@ spec fn popRequest(c *RequestCommand, old_c RequestCommand, r *rawEnvelope) bool = popCommand(&c.Command, old_c.Command, r) && c.URI == r.URI
+//@ spec fn popResponse(c *ResponseCommand, old_c ResponseCommand, r *rawEnvelope) bool = popCommand(&c.Command, old_c.Command, r) && c.Reason == r.Reason && c.Status == ite(r.Status != nil, old(*r.Status), old_c.Status) && (r.Status != nil ==> old(*r.Status) != "")
 
 //@ func (*RequestCommand).toRawEnvelope
 //@   props C01 C02
@@ -577,7 +590,8 @@ func verifAssume(cond bool) {}
 //@   props C01 C02
 //@   requires cmd != nil && raw != nil && rawApart(raw, cmd)
 //@   ensures raw.Method == nil ==> result != nil
-//@   ensures result == nil ==> popCommand(&cmd.Command, old(cmd.Command), raw) && cmd.URI == raw.URI
+//@   ensures okCommand(raw) ==> result == nil
+//@   ensures result == nil ==> popRequest(cmd, old(*cmd), raw)
 //@   modifies *cmd
 
 //@ func (*RequestCommand).UnmarshalJSON
@@ -598,7 +612,8 @@ func verifAssume(cond bool) {}
 //@   props C01 C02
 //@   requires cmd != nil && raw != nil && rawApart(raw, cmd)
 //@   ensures raw.Method == nil ==> result != nil
-//@   ensures result == nil ==> popCommand(&cmd.Command, old(cmd.Command), raw) && cmd.Reason == raw.Reason && cmd.Status == ite(raw.Status != nil, *raw.Status, old(cmd.Status))
+//@   ensures okCommand(raw) && (raw.Status != nil ==> *raw.Status != "") ==> result == nil
+//@   ensures result == nil ==> popResponse(cmd, old(*cmd), raw)
 //@   modifies *cmd
 
 //@ func (*ResponseCommand).UnmarshalJSON
@@ -617,13 +632,31 @@ func verifAssume(cond bool) {}
 //@   ensures !(re.Method != nil && (re.URI != nil || re.Status != nil)) && re.Event == nil && re.Content == nil && re.State == nil ==> err != nil
 //@   modifies nothing
 
+//@ spec fn kindReq(re *rawEnvelope) bool = re.Method != nil && re.URI != nil
+//@ spec fn kindResp(re *rawEnvelope) bool = re.Method != nil && re.URI == nil && re.Status != nil
+//@ spec fn kindNot(re *rawEnvelope) bool = !kindReq(re) && !kindResp(re) && re.Event != nil
+//@ spec fn kindMsg(re *rawEnvelope) bool = !kindReq(re) && !kindResp(re) && re.Event == nil && re.Content != nil
+//@ spec fn kindSes(re *rawEnvelope) bool = !kindReq(re) && !kindResp(re) && re.Event == nil && re.Content == nil && re.State != nil
+
 //@ func (*rawEnvelope).toEnvelope
 //@   props C01 C02
 //@   requires re != nil
 //@   ensures err == nil ==> result0 != nil && fresh(result0)
+//@   ensures kindReq(re) && okCommand(re) ==> err == nil
+//@   ensures kindResp(re) && okCommand(re) && *re.Status != "" ==> err == nil
+//@   ensures kindNot(re) ==> err == nil
+//@   ensures kindMsg(re) && okMessage(re) ==> err == nil
+//@   ensures kindSes(re) && okSession(re) ==> err == nil
+//@   ensures err == nil && kindReq(re) ==> istype(result0, *RequestCommand) && popRequest(result0.(*RequestCommand), RequestCommand{}, re)
+//@   ensures err == nil && kindResp(re) ==> istype(result0, *ResponseCommand) && popResponse(result0.(*ResponseCommand), ResponseCommand{}, re)
+//@   ensures err == nil && kindNot(re) ==> istype(result0, *Notification) && popNotification(result0.(*Notification), Notification{}, re)
+//@   ensures err == nil && kindMsg(re) ==> istype(result0, *Message) && popMessage(result0.(*Message), Message{}, re)
+//@   ensures err == nil && kindSes(re) ==> istype(result0, *Session) && popSession(result0.(*Session), Session{}, re)
+//@   ensures err == nil ==> kindReq(re) || kindResp(re) || kindNot(re) || kindMsg(re) || kindSes(re)
 //@   modifies nothing
 
 //@ spec fn jsonOK(d Document) bool = uninterpreted
+//@ spec fn docDecodes(text string, tag int) bool = uninterpreted
 //@ spec fn freshOrNil(p *Node) bool = p == nil || fresh(p)
 //@ spec fn rawFresh(r *rawEnvelope) bool = freshOrNil(r.From) && freshOrNil(r.PP) && freshOrNil(r.To) && freshOrNil(r.Metadata) && freshOrNil(r.Reason) && freshOrNil(r.Type) && freshOrNil(r.Content) && freshOrNil(r.Event) && freshOrNil(r.Method) && freshOrNil(r.Resource) && freshOrNil(r.URI) && freshOrNil(r.Status) && freshOrNil(r.State) && freshOrNil(r.Encryption) && freshOrNil(r.Compression) && freshOrNil(r.Scheme) && freshOrNil(r.Authentication)
 
@@ -632,7 +665,7 @@ func verifAssume(cond bool) {}
 //@ spec fn authOK(a Authentication) bool = uninterpreted
 //@ spec fn authFactoryTag(f func() Authentication) int = uninterpreted
 
-//@ mapinv authFactories : v != nil  ## the registry is initialised with five non-nil factories and never written afterwards
+//@ mapinv authFactories : v != nil && k != ""  ## the registry is initialised with five non-nil factories and never written afterwards
 //@ callback role authFactory() (a) : element of authFactories
 //@   modifies nothing
 //@   ensures a != nil && fresh(a) && tagof(a) == authFactoryTag(self_)
@@ -649,19 +682,20 @@ func verifAssume(cond bool) {}
 //@   ensures err == nil ==> ite(s.Encryption != "", result0.Encryption == &s.Encryption, result0.Encryption == nil)
 //@   ensures err == nil ==> ite(s.Compression != "", result0.Compression == &s.Compression, result0.Compression == nil)
 //@   ensures err == nil ==> ite(s.Scheme != "", result0.Scheme == &s.Scheme, result0.Scheme == nil)
-//@   ensures err == nil ==> ite(s.Authentication != nil, result0.Authentication != nil && fresh(result0.Authentication) && bytes(*result0.Authentication) == s.Authentication.text, result0.Authentication == nil)
+//@   ensures err == nil ==> ite(s.Authentication != nil, result0.Authentication != nil && fresh(result0.Authentication) && bytes(*result0.Authentication) == s.Authentication.text && jsonValid(bytes(*result0.Authentication)), result0.Authentication == nil)
 //@   modifies nothing
+
+//@ spec fn authDecodes(text string, tag int) bool = uninterpreted
+//@ spec fn okSession(r *rawEnvelope) bool = r.State != nil && (r.Authentication != nil ==> r.Scheme != nil && mapdom(authFactories, *r.Scheme) && authDecodes(bytes(*r.Authentication), authFactoryTag(authFactories[*r.Scheme])))
+//@ spec fn popSession(s *Session, old_s Session, r *rawEnvelope) bool = popBase(&s.Envelope, old_s.Envelope, r) && r.State != nil && s.State == *r.State && s.Reason == r.Reason && s.EncryptionOptions == r.EncryptionOptions && s.CompressionOptions == r.CompressionOptions && s.SchemeOptions == r.SchemeOptions && s.Encryption == ite(r.Encryption != nil, old(*r.Encryption), old_s.Encryption) && s.Compression == ite(r.Compression != nil, old(*r.Compression), old_s.Compression) && s.Scheme == ite(r.Scheme != nil, old(*r.Scheme), old_s.Scheme) && ite(r.Authentication == nil, s.Authentication == old_s.Authentication, r.Scheme != nil && (s.Authentication != nil ==> tagof(s.Authentication) == authFactoryTag(authFactories[old(*r.Scheme)]) && s.Authentication.text == bytes(*r.Authentication) && authOK(s.Authentication) && authDecodes(s.Authentication.text, tagof(s.Authentication)) && mapdom(authFactories, old(*r.Scheme)) && old(*r.Scheme) != "") && (s.Authentication == nil ==> bytes(*r.Authentication) == "null"))
 
 //@ func (*Session).populate
 //@   props C01 C02
 //@   requires s != nil && raw != nil && rawApart(raw, s)
 //@   ensures raw.State == nil ==> result != nil
 //@   ensures raw.Authentication != nil && raw.Scheme == nil ==> result != nil
-//@   ensures result == nil ==> popBase(&s.Envelope, old(s.Envelope), raw) && s.State == *raw.State && s.Reason == raw.Reason
-//@   ensures result == nil ==> s.EncryptionOptions == raw.EncryptionOptions && s.CompressionOptions == raw.CompressionOptions && s.SchemeOptions == raw.SchemeOptions
-//@   ensures result == nil ==> s.Encryption == ite(raw.Encryption != nil, *raw.Encryption, old(s.Encryption)) && s.Compression == ite(raw.Compression != nil, *raw.Compression, old(s.Compression)) && s.Scheme == ite(raw.Scheme != nil, *raw.Scheme, old(s.Scheme))
-//@   ensures result == nil && raw.Authentication == nil ==> s.Authentication == old(s.Authentication)
-//@   ensures result == nil && raw.Authentication != nil && s.Authentication != nil ==> tagof(s.Authentication) == authFactoryTag(authFactories[*raw.Scheme]) && s.Authentication.text == bytes(*raw.Authentication)
+//@   ensures okSession(raw) ==> result == nil
+//@   ensures result == nil ==> popSession(s, old(*s), raw)
 //@   modifies *s
 
 //@ func (*Session).UnmarshalJSON
@@ -815,3 +849,593 @@ func verifAssume(cond bool) {}
 //@   props C02
 //@   requires u != nil
 //@   modifies *u
+
+// ---------------------------------------------------------------------------
+// C01 / C02 - wire round-trip lemmas
+// ---------------------------------------------------------------------------
+// verifWire* stands for json.Unmarshal(json.Marshal(in)) on a raw struct. Its
+// contract is derived mechanically from the struct's field types and tags on
+// every run (engine/derive.go); it is an assumption about encoding/json.
+
+func verifWireRawEnvelope(in *rawEnvelope) (out *rawEnvelope, err error) { panic("ghost") }
+
+//@ func verifWireRawEnvelope
+//@   derive wire
+
+//@ spec fn textOK_Node(n Node) bool = uninterpreted
+//@ spec fn textOK_MediaType(m MediaType) bool = uninterpreted
+//@ spec fn textOK_NotificationEvent(e NotificationEvent) bool = validEvent(e)
+//@ spec fn textOK_CommandMethod(m CommandMethod) bool = validMethod(m)
+//@ spec fn textOK_SessionState(s SessionState) bool = validState(s)
+//@ spec fn textOK_URI(u *URI) bool = uninterpreted
+//@ spec fn textOf_URI(u *URI) string = uninterpreted
+//@ spec fn parsed_URI(u *URI) bool = uninterpreted
+//@ spec fn jsonValid(s string) bool = uninterpreted
+//@ spec fn seq_SessionEncryption(s []SessionEncryption) int = uninterpreted
+//@ spec fn seq_SessionCompression(s []SessionCompression) int = uninterpreted
+//@ spec fn seq_AuthenticationScheme(s []AuthenticationScheme) int = uninterpreted
+
+//@ spec fn wfNodeOpt(n Node) bool = n != Node{} ==> textOK_Node(n)
+//@ spec fn wfEnvelope(e *Envelope) bool = wfNodeOpt(e.From) && wfNodeOpt(e.PP) && wfNodeOpt(e.To)
+//@ spec fn wfDoc(d Document, t MediaType) bool = d != nil && jsonOK(d) && d.text != "null" && docDecodes(d.text, tagof(d)) && textOK_MediaType(t) && tagof(d) == factoryTag(resolveFactory(t)) && resolveFactory(t) != nil
+//@ spec fn eqMeta(a map[string]string, b map[string]string) bool = mapsame(a, b) || (mapempty(a) && mapempty(b))
+//@ spec fn eqEnvelope(a *Envelope, b *Envelope) bool = a.ID == b.ID && a.From == b.From && a.PP == b.PP && a.To == b.To && eqMeta(a.Metadata, b.Metadata)
+//@ spec fn eqDoc(a Document, b Document) bool = (a == nil && b == nil) || (a != nil && b != nil && tagof(a) == tagof(b) && a.text == b.text)
+//@ spec fn eqReason(a *Reason, b *Reason) bool = (a == nil && b == nil) || (a != nil && b != nil && *a == *b)
+
+//@ spec fn wfMessage(m *Message) bool = m != nil && wfEnvelope(&m.Envelope) && wfDoc(m.Content, m.Type)
+//@ spec fn eqMessage(a *Message, b *Message) bool = a != nil && eqEnvelope(&a.Envelope, &b.Envelope) && a.Type == b.Type && eqDoc(a.Content, b.Content)
+
+//@ lemma lemmaRoundtripMessage
+//@   props C01
+//@   requires wfMessage(e)
+//@   ensures ok && eqMessage(e2, e)
+
+func lemmaRoundtripMessage(e *Message) (e2 *Message, ok bool) {
+	raw, err := e.toRawEnvelope()
+	if err != nil {
+		return nil, false
+	}
+	w, err := verifWireRawEnvelope(raw)
+	if err != nil {
+		return nil, false
+	}
+	kind, err := w.envelopeType()
+	if err != nil || kind != "Message" {
+		return nil, false
+	}
+	e2 = &Message{}
+	if err := e2.populate(w); err != nil {
+		return nil, false
+	}
+	return e2, true
+}
+
+//@ spec fn wfResDoc(c *Command) bool = ite(c.Resource != nil, c.Type != nil && wfDoc(c.Resource, *c.Type), c.Type == nil)
+//@ spec fn eqType(a *MediaType, b *MediaType) bool = (a == nil && b == nil) || (a != nil && b != nil && *a == *b)
+//@ spec fn eqCommand(a *Command, b *Command) bool = eqEnvelope(&a.Envelope, &b.Envelope) && a.Method == b.Method && eqType(a.Type, b.Type) && eqDoc(a.Resource, b.Resource)
+
+//@ spec fn wfNotificationEnv(n *Notification) bool = n != nil && wfEnvelope(&n.Envelope) && validEvent(n.Event)
+//@ spec fn eqNotification(a *Notification, b *Notification) bool = a != nil && eqEnvelope(&a.Envelope, &b.Envelope) && a.Event == b.Event && eqReason(a.Reason, b.Reason)
+
+//@ spec fn wfRequest(c *RequestCommand) bool = c != nil && wfEnvelope(&c.Envelope) && validMethod(c.Method) && wfResDoc(&c.Command) && c.URI != nil && textOK_URI(c.URI)
+//@ spec fn eqURI(a *URI, b *URI) bool = (a == nil && b == nil) || (a != nil && b != nil && textOf_URI(a) == textOf_URI(b))
+//@ spec fn eqRequest(a *RequestCommand, b *RequestCommand) bool = a != nil && eqCommand(&a.Command, &b.Command) && eqURI(a.URI, b.URI)
+
+//@ spec fn wfResponseEnv(c *ResponseCommand) bool = c != nil && wfEnvelope(&c.Envelope) && validMethod(c.Method) && wfResDoc(&c.Command) && c.Status != ""
+//@ spec fn eqResponse(a *ResponseCommand, b *ResponseCommand) bool = a != nil && eqCommand(&a.Command, &b.Command) && a.Status == b.Status && eqReason(a.Reason, b.Reason)
+
+//@ spec fn wfAuth(s *Session) bool = s.Authentication != nil ==> authOK(s.Authentication) && s.Scheme != "" && s.Authentication.text != "null" && mapdom(authFactories, s.Scheme) && authDecodes(s.Authentication.text, tagof(s.Authentication)) && tagof(s.Authentication) == authFactoryTag(authFactories[s.Scheme])
+//@ spec fn wfSession(s *Session) bool = s != nil && wfEnvelope(&s.Envelope) && validState(s.State) && wfAuth(s)
+//@ spec fn eqSeqEnc(a []SessionEncryption, b []SessionEncryption) bool = (len(a) == 0 && len(b) == 0) || (len(a) == len(b) && seq_SessionEncryption(a) == seq_SessionEncryption(b))
+//@ spec fn eqSeqComp(a []SessionCompression, b []SessionCompression) bool = (len(a) == 0 && len(b) == 0) || (len(a) == len(b) && seq_SessionCompression(a) == seq_SessionCompression(b))
+//@ spec fn eqSeqScheme(a []AuthenticationScheme, b []AuthenticationScheme) bool = (len(a) == 0 && len(b) == 0) || (len(a) == len(b) && seq_AuthenticationScheme(a) == seq_AuthenticationScheme(b))
+//@ spec fn eqAuth(a Authentication, b Authentication) bool = (a == nil && b == nil) || (a != nil && b != nil && tagof(a) == tagof(b) && a.text == b.text)
+//@ spec fn eqSession(a *Session, b *Session) bool = a != nil && eqEnvelope(&a.Envelope, &b.Envelope) && a.State == b.State && a.Encryption == b.Encryption && a.Compression == b.Compression && a.Scheme == b.Scheme && eqReason(a.Reason, b.Reason) && eqSeqEnc(a.EncryptionOptions, b.EncryptionOptions) && eqSeqComp(a.CompressionOptions, b.CompressionOptions) && eqSeqScheme(a.SchemeOptions, b.SchemeOptions) && eqAuth(a.Authentication, b.Authentication)
+
+//@ lemma lemmaRoundtripNotification
+//@   props C01
+//@   requires wfNotificationEnv(e)
+//@   ensures ok && eqNotification(e2, e)
+//@ lemma lemmaRoundtripRequest
+//@   props C01
+//@   requires wfRequest(e)
+//@   ensures ok && eqRequest(e2, e)
+//@ lemma lemmaRoundtripResponse
+//@   props C01
+//@   requires wfResponseEnv(e)
+//@   ensures ok && eqResponse(e2, e)
+//@ lemma lemmaRoundtripSession
+//@   props C01
+//@   requires wfSession(e)
+//@   ensures ok && eqSession(e2, e)
+
+func lemmaRoundtripNotification(e *Notification) (e2 *Notification, ok bool) {
+	raw, err := e.toRawEnvelope()
+	if err != nil {
+		return nil, false
+	}
+	w, err := verifWireRawEnvelope(raw)
+	if err != nil {
+		return nil, false
+	}
+	kind, err := w.envelopeType()
+	if err != nil || kind != "Notification" {
+		return nil, false
+	}
+	e2 = &Notification{}
+	if err := e2.populate(w); err != nil {
+		return nil, false
+	}
+	return e2, true
+}
+
+func lemmaRoundtripRequest(e *RequestCommand) (e2 *RequestCommand, ok bool) {
+	raw, err := e.toRawEnvelope()
+	if err != nil {
+		return nil, false
+	}
+	w, err := verifWireRawEnvelope(raw)
+	if err != nil {
+		return nil, false
+	}
+	kind, err := w.envelopeType()
+	if err != nil || kind != "RequestCommand" {
+		return nil, false
+	}
+	e2 = &RequestCommand{}
+	if err := e2.populate(w); err != nil {
+		return nil, false
+	}
+	return e2, true
+}
+
+func lemmaRoundtripResponse(e *ResponseCommand) (e2 *ResponseCommand, ok bool) {
+	raw, err := e.toRawEnvelope()
+	if err != nil {
+		return nil, false
+	}
+	w, err := verifWireRawEnvelope(raw)
+	if err != nil {
+		return nil, false
+	}
+	kind, err := w.envelopeType()
+	if err != nil || kind != "ResponseCommand" {
+		return nil, false
+	}
+	e2 = &ResponseCommand{}
+	if err := e2.populate(w); err != nil {
+		return nil, false
+	}
+	return e2, true
+}
+
+func lemmaRoundtripSession(e *Session) (e2 *Session, ok bool) {
+	raw, err := e.toRawEnvelope()
+	if err != nil {
+		return nil, false
+	}
+	w, err := verifWireRawEnvelope(raw)
+	if err != nil {
+		return nil, false
+	}
+	kind, err := w.envelopeType()
+	if err != nil || kind != "Session" {
+		return nil, false
+	}
+	e2 = &Session{}
+	if err := e2.populate(w); err != nil {
+		return nil, false
+	}
+	return e2, true
+}
+
+// The same through the transports' receive path (raw.toEnvelope()).
+
+//@ lemma lemmaReceiveMessage
+//@   props C01
+//@   requires wfMessage(e)
+//@   ensures ok && eqMessage(e2, e)
+//@ lemma lemmaReceiveNotification
+//@   props C01
+//@   requires wfNotificationEnv(e)
+//@   ensures ok && eqNotification(e2, e)
+//@ lemma lemmaReceiveRequest
+//@   props C01
+//@   requires wfRequest(e)
+//@   ensures ok && eqRequest(e2, e)
+//@ lemma lemmaReceiveResponse
+//@   props C01
+//@   requires wfResponseEnv(e)
+//@   ensures ok && eqResponse(e2, e)
+//@ lemma lemmaReceiveSession
+//@   props C01
+//@   requires wfSession(e)
+//@   ensures ok && eqSession(e2, e)
+
+func lemmaReceiveMessage(e *Message) (e2 *Message, ok bool) {
+	raw, err := e.toRawEnvelope()
+	if err != nil {
+		return nil, false
+	}
+	w, err := verifWireRawEnvelope(raw)
+	if err != nil {
+		return nil, false
+	}
+	env, err := w.toEnvelope()
+	if err != nil {
+		return nil, false
+	}
+	e2, ok = env.(*Message)
+	return e2, ok
+}
+
+func lemmaReceiveNotification(e *Notification) (e2 *Notification, ok bool) {
+	raw, err := e.toRawEnvelope()
+	if err != nil {
+		return nil, false
+	}
+	w, err := verifWireRawEnvelope(raw)
+	if err != nil {
+		return nil, false
+	}
+	env, err := w.toEnvelope()
+	if err != nil {
+		return nil, false
+	}
+	e2, ok = env.(*Notification)
+	return e2, ok
+}
+
+func lemmaReceiveRequest(e *RequestCommand) (e2 *RequestCommand, ok bool) {
+	raw, err := e.toRawEnvelope()
+	if err != nil {
+		return nil, false
+	}
+	w, err := verifWireRawEnvelope(raw)
+	if err != nil {
+		return nil, false
+	}
+	env, err := w.toEnvelope()
+	if err != nil {
+		return nil, false
+	}
+	e2, ok = env.(*RequestCommand)
+	return e2, ok
+}
+
+func lemmaReceiveResponse(e *ResponseCommand) (e2 *ResponseCommand, ok bool) {
+	raw, err := e.toRawEnvelope()
+	if err != nil {
+		return nil, false
+	}
+	w, err := verifWireRawEnvelope(raw)
+	if err != nil {
+		return nil, false
+	}
+	env, err := w.toEnvelope()
+	if err != nil {
+		return nil, false
+	}
+	e2, ok = env.(*ResponseCommand)
+	return e2, ok
+}
+
+func lemmaReceiveSession(e *Session) (e2 *Session, ok bool) {
+	raw, err := e.toRawEnvelope()
+	if err != nil {
+		return nil, false
+	}
+	w, err := verifWireRawEnvelope(raw)
+	if err != nil {
+		return nil, false
+	}
+	env, err := w.toEnvelope()
+	if err != nil {
+		return nil, false
+	}
+	e2, ok = env.(*Session)
+	return e2, ok
+}
+
+// ---------------------------------------------------------------------------
+// C02 - whatever is accepted can be encoded again and decodes to an equal envelope
+// ---------------------------------------------------------------------------
+// decodedRaw(r): what encoding/json guarantees about a raw envelope it produced
+// (text fields are results of a successful UnmarshalText, RawMessage fields are
+// valid JSON other than null). stableRaw(r): the text-level stability facts
+// parse(String(parse(s))) == parse(s), stated per text type and discharged
+// separately (text-form checks); they enter here as named assumptions.
+
+//@ spec fn parsed_Node(n Node) bool = uninterpreted
+//@ spec fn parsed_MediaType(m MediaType) bool = uninterpreted
+//@ spec fn rawJSON(c *json.RawMessage) bool = c != nil ==> jsonValid(bytes(*c)) && bytes(*c) != "null"
+//@ spec fn decodedRaw(r *rawEnvelope) bool = (r.From != nil ==> parsed_Node(*r.From)) && (r.PP != nil ==> parsed_Node(*r.PP)) && (r.To != nil ==> parsed_Node(*r.To)) && (r.Type != nil ==> parsed_MediaType(*r.Type)) && rawJSON(r.Content) && rawJSON(r.Resource) && rawJSON(r.Authentication) && (r.Event != nil ==> validEvent(*r.Event)) && (r.Method != nil ==> validMethod(*r.Method)) && (r.State != nil ==> validState(*r.State)) && (r.URI != nil ==> parsed_URI(r.URI))
+//@ spec fn stableNode(p *Node) bool = p != nil && parsed_Node(*p) ==> textOK_Node(*p)
+//@ spec fn stableRaw(r *rawEnvelope) bool = stableNode(r.From) && stableNode(r.PP) && stableNode(r.To) && (r.Type != nil && parsed_MediaType(*r.Type) ==> textOK_MediaType(*r.Type)) && (r.URI != nil && parsed_URI(r.URI) ==> textOK_URI(r.URI))
+
+
+// typed decoder path: accepted by Message.populate (what Message.UnmarshalJSON runs)
+//@ lemma lemmaReencodeMessage
+//@   props C02
+//@   requires raw != nil && decodedRaw(raw) && stableRaw(raw)
+//@   ensures accepted ==> ok && eqMessage(e3, e)
+
+func lemmaReencodeMessage(raw *rawEnvelope) (e *Message, e3 *Message, accepted bool, ok bool) {
+	e = &Message{}
+	if err := e.populate(raw); err != nil {
+		return nil, nil, false, false
+	}
+	raw2, err := e.toRawEnvelope()
+	if err != nil {
+		return e, nil, true, false
+	}
+	w, err := verifWireRawEnvelope(raw2)
+	if err != nil {
+		return e, nil, true, false
+	}
+	e3 = &Message{}
+	if err := e3.populate(w); err != nil {
+		return e, nil, true, false
+	}
+	return e, e3, true, true
+}
+
+// transport receive path: accepted by raw.toEnvelope() as a Message
+//@ lemma lemmaForwardMessage
+//@   props C02
+//@   requires raw != nil && decodedRaw(raw) && stableRaw(raw)
+//@   ensures accepted ==> ok && eqMessage(e3, e)
+
+func lemmaForwardMessage(raw *rawEnvelope) (e *Message, e3 *Message, accepted bool, ok bool) {
+	env, err := raw.toEnvelope()
+	if err != nil {
+		return nil, nil, false, false
+	}
+	e, isK := env.(*Message)
+	if !isK {
+		return nil, nil, false, false
+	}
+	raw2, err := e.toRawEnvelope()
+	if err != nil {
+		return e, nil, true, false
+	}
+	w, err := verifWireRawEnvelope(raw2)
+	if err != nil {
+		return e, nil, true, false
+	}
+	env2, err := w.toEnvelope()
+	if err != nil {
+		return e, nil, true, false
+	}
+	e3, ok = env2.(*Message)
+	return e, e3, true, ok
+}
+
+// typed decoder path: accepted by Notification.populate (what Notification.UnmarshalJSON runs)
+//@ lemma lemmaReencodeNotification
+//@   props C02
+//@   requires raw != nil && decodedRaw(raw) && stableRaw(raw)
+//@   ensures accepted ==> ok && eqNotification(e3, e)
+
+func lemmaReencodeNotification(raw *rawEnvelope) (e *Notification, e3 *Notification, accepted bool, ok bool) {
+	e = &Notification{}
+	if err := e.populate(raw); err != nil {
+		return nil, nil, false, false
+	}
+	raw2, err := e.toRawEnvelope()
+	if err != nil {
+		return e, nil, true, false
+	}
+	w, err := verifWireRawEnvelope(raw2)
+	if err != nil {
+		return e, nil, true, false
+	}
+	e3 = &Notification{}
+	if err := e3.populate(w); err != nil {
+		return e, nil, true, false
+	}
+	return e, e3, true, true
+}
+
+// transport receive path: accepted by raw.toEnvelope() as a Notification
+//@ lemma lemmaForwardNotification
+//@   props C02
+//@   requires raw != nil && decodedRaw(raw) && stableRaw(raw)
+//@   ensures accepted ==> ok && eqNotification(e3, e)
+
+func lemmaForwardNotification(raw *rawEnvelope) (e *Notification, e3 *Notification, accepted bool, ok bool) {
+	env, err := raw.toEnvelope()
+	if err != nil {
+		return nil, nil, false, false
+	}
+	e, isK := env.(*Notification)
+	if !isK {
+		return nil, nil, false, false
+	}
+	raw2, err := e.toRawEnvelope()
+	if err != nil {
+		return e, nil, true, false
+	}
+	w, err := verifWireRawEnvelope(raw2)
+	if err != nil {
+		return e, nil, true, false
+	}
+	env2, err := w.toEnvelope()
+	if err != nil {
+		return e, nil, true, false
+	}
+	e3, ok = env2.(*Notification)
+	return e, e3, true, ok
+}
+
+// typed decoder path: accepted by RequestCommand.populate (what RequestCommand.UnmarshalJSON runs)
+//@ lemma lemmaReencodeRequestCommand
+//@   props C02
+//@   requires raw != nil && decodedRaw(raw) && stableRaw(raw)
+//@   ensures accepted ==> ok && eqRequest(e3, e)
+
+func lemmaReencodeRequestCommand(raw *rawEnvelope) (e *RequestCommand, e3 *RequestCommand, accepted bool, ok bool) {
+	e = &RequestCommand{}
+	if err := e.populate(raw); err != nil {
+		return nil, nil, false, false
+	}
+	raw2, err := e.toRawEnvelope()
+	if err != nil {
+		return e, nil, true, false
+	}
+	w, err := verifWireRawEnvelope(raw2)
+	if err != nil {
+		return e, nil, true, false
+	}
+	e3 = &RequestCommand{}
+	if err := e3.populate(w); err != nil {
+		return e, nil, true, false
+	}
+	return e, e3, true, true
+}
+
+// transport receive path: accepted by raw.toEnvelope() as a RequestCommand
+//@ lemma lemmaForwardRequestCommand
+//@   props C02
+//@   requires raw != nil && decodedRaw(raw) && stableRaw(raw)
+//@   ensures accepted ==> ok && eqRequest(e3, e)
+
+func lemmaForwardRequestCommand(raw *rawEnvelope) (e *RequestCommand, e3 *RequestCommand, accepted bool, ok bool) {
+	env, err := raw.toEnvelope()
+	if err != nil {
+		return nil, nil, false, false
+	}
+	e, isK := env.(*RequestCommand)
+	if !isK {
+		return nil, nil, false, false
+	}
+	raw2, err := e.toRawEnvelope()
+	if err != nil {
+		return e, nil, true, false
+	}
+	w, err := verifWireRawEnvelope(raw2)
+	if err != nil {
+		return e, nil, true, false
+	}
+	env2, err := w.toEnvelope()
+	if err != nil {
+		return e, nil, true, false
+	}
+	e3, ok = env2.(*RequestCommand)
+	return e, e3, true, ok
+}
+
+// typed decoder path: accepted by ResponseCommand.populate (what ResponseCommand.UnmarshalJSON runs)
+//@ lemma lemmaReencodeResponseCommand
+//@   props C02
+//@   requires raw != nil && decodedRaw(raw) && stableRaw(raw)
+//@   ensures accepted ==> ok && eqResponse(e3, e)
+
+func lemmaReencodeResponseCommand(raw *rawEnvelope) (e *ResponseCommand, e3 *ResponseCommand, accepted bool, ok bool) {
+	e = &ResponseCommand{}
+	if err := e.populate(raw); err != nil {
+		return nil, nil, false, false
+	}
+	raw2, err := e.toRawEnvelope()
+	if err != nil {
+		return e, nil, true, false
+	}
+	w, err := verifWireRawEnvelope(raw2)
+	if err != nil {
+		return e, nil, true, false
+	}
+	e3 = &ResponseCommand{}
+	if err := e3.populate(w); err != nil {
+		return e, nil, true, false
+	}
+	return e, e3, true, true
+}
+
+// transport receive path: accepted by raw.toEnvelope() as a ResponseCommand
+//@ lemma lemmaForwardResponseCommand
+//@   props C02
+//@   requires raw != nil && decodedRaw(raw) && stableRaw(raw)
+//@   ensures accepted ==> ok && eqResponse(e3, e)
+
+func lemmaForwardResponseCommand(raw *rawEnvelope) (e *ResponseCommand, e3 *ResponseCommand, accepted bool, ok bool) {
+	env, err := raw.toEnvelope()
+	if err != nil {
+		return nil, nil, false, false
+	}
+	e, isK := env.(*ResponseCommand)
+	if !isK {
+		return nil, nil, false, false
+	}
+	raw2, err := e.toRawEnvelope()
+	if err != nil {
+		return e, nil, true, false
+	}
+	w, err := verifWireRawEnvelope(raw2)
+	if err != nil {
+		return e, nil, true, false
+	}
+	env2, err := w.toEnvelope()
+	if err != nil {
+		return e, nil, true, false
+	}
+	e3, ok = env2.(*ResponseCommand)
+	return e, e3, true, ok
+}
+
+// typed decoder path: accepted by Session.populate (what Session.UnmarshalJSON runs)
+//@ lemma lemmaReencodeSession
+//@   props C02
+//@   requires raw != nil && decodedRaw(raw) && stableRaw(raw)
+//@   ensures accepted ==> ok && eqSession(e3, e)
+
+func lemmaReencodeSession(raw *rawEnvelope) (e *Session, e3 *Session, accepted bool, ok bool) {
+	e = &Session{}
+	if err := e.populate(raw); err != nil {
+		return nil, nil, false, false
+	}
+	raw2, err := e.toRawEnvelope()
+	if err != nil {
+		return e, nil, true, false
+	}
+	w, err := verifWireRawEnvelope(raw2)
+	if err != nil {
+		return e, nil, true, false
+	}
+	e3 = &Session{}
+	if err := e3.populate(w); err != nil {
+		return e, nil, true, false
+	}
+	return e, e3, true, true
+}
+
+// transport receive path: accepted by raw.toEnvelope() as a Session
+//@ lemma lemmaForwardSession
+//@   props C02
+//@   requires raw != nil && decodedRaw(raw) && stableRaw(raw)
+//@   ensures accepted ==> ok && eqSession(e3, e)
+
+func lemmaForwardSession(raw *rawEnvelope) (e *Session, e3 *Session, accepted bool, ok bool) {
+	env, err := raw.toEnvelope()
+	if err != nil {
+		return nil, nil, false, false
+	}
+	e, isK := env.(*Session)
+	if !isK {
+		return nil, nil, false, false
+	}
+	raw2, err := e.toRawEnvelope()
+	if err != nil {
+		return e, nil, true, false
+	}
+	w, err := verifWireRawEnvelope(raw2)
+	if err != nil {
+		return e, nil, true, false
+	}
+	env2, err := w.toEnvelope()
+	if err != nil {
+		return e, nil, true, false
+	}
+	e3, ok = env2.(*Session)
+	return e, e3, true, ok
+}
